@@ -42,5 +42,15 @@ def run(report, tier):
                 bounds=f"{len(H.MODELS)} model names x PHOTOS x 6 parameter-list variants (up to 8 parameters)",
                 functions=PARSE_FUNCS, timeout=t, concrete_body=True, sample={"model": "SSD_CP", "params": "dm 1.0 -beta undefined_name -dmx"}),
     ]
+    hs.append(Harness(
+        name="tree-values", module="harness.c01", body="body_tree_values", sig="sel: int, x: float, y: float, z: float", n_sel=H.N_TREE,
+        pre=["x == x", "y == y", "z == z"],
+        claim="downstream of Lark, for every numeric value: parse() on a hand-built tree reports the branching fraction and numeric "
+              "parameters written, first block kept for a repeated mother, copied / conjugated tables and alias expansions carry the "
+              "same numbers, Define'd and negated parameters resolved",
+        bounds="4 hand-built trees (decay lines with PHOTOS / parameters / Define, repeated mother, CopyDecay + CDecay, ModelAlias used twice); "
+               "Lark replaced by a stub returning the tree",
+        symbolic="three numeric token values: any non-NaN float", functions=PARSE_FUNCS, shards=4, timeout=300,
+        sample={"tree": "decay(B0, decayline(x, K+ pi-, PHOTOS, SVS_CP z word x dm)), define(dm, y)"}))
     for h in hs:
         chrun.run_harness(report, h)
